@@ -104,7 +104,7 @@ def space(tier):
     XL = X4.XLEAF_NAMES
     if tier == "quick":
         add("full alphabet, <=1 node", L3 + XL, full, c03.BINARY, 1, c03.WRAPPERS)
-        add("context alphabet, <=2 nodes, leaves a,b + operators on two keys", ["a", "b"] + XL, U_CTX, B_CTX, 2,
+        add("context alphabet, <=2 nodes, leaves a,b,VCab,JXab,JLab", ["a", "b", "VCab", "JXab", "JLab"], U_CTX, B_CTX, 2,
             ["pre:exp"], grid=(0,))
         add("context alphabet, <=2 nodes, leaves a,b,c", ["a", "b", "c"], U_CTX, B_CTX, 2, ["pre:exp"], grid=(0,))
         add("tiny alphabet, <=3 nodes, leaves a,b,c", ["a", "b", "c"], U_TINY, B_TINY, 3, grid=(0,))
